@@ -78,8 +78,9 @@ pub struct NameKey(pub String);
 pub struct ScopedId(pub String, pub u32);
 impl std::fmt::Display for ScopedId {
     fn fmt(&self, f: &mut std::fmt::Formatter<'_>) -> std::fmt::Result {
+        use std::fmt::Write;
         f.write_str(&self.0)?;
-        f.write_str("#")?;
+        f.write_char('#')?;
         write!(f, "{}", self.1)
     }
 }
@@ -91,9 +92,9 @@ impl Serialize for ScopedId {
 
 #[derive(Debug, Clone, PartialEq, Serialize)]
 pub struct Shapes {
+    pub pad: String,
     pub id: ScopedId,
     pub addr: Vec<std::net::IpAddr>,
-    pub pad: String,
     pub f: f64,
     pub g: f32,
     pub var: ShapeVar,
